@@ -538,7 +538,10 @@ def to_float_list(vals):
 
 
 def mk_k(K):
-    return gen.mk_ktensor(ttb, to_float_list(K["weights"]), K["factors"])
+    factors = K["factors"]
+    if any(isinstance(e, str) for fm in factors for row in fm for e in row):   # dyadic entries "n/d"
+        factors = [[to_float_list(row) for row in fm] for fm in factors]
+    return gen.mk_ktensor(ttb, to_float_list(K["weights"]), factors)
 
 
 def fg_canon(res, wantF, wantG):
@@ -1293,6 +1296,370 @@ class FullSample(Family):
         return out
 
 
+# ----------------------------------------------------------------------------
+# the sampled estimator with arbitrary weights and the correction range; masks
+# ----------------------------------------------------------------------------
+def unit_model(K):
+    return {"weights": [1] * len(K["weights"]), "factors": K["factors"]}
+
+
+def comp_except(K, k, r, i):
+    t = Fraction(1)
+    for n, ik in enumerate(i):
+        if n != k:
+            t *= Fraction(K["factors"][n][ik][r])
+    return t
+
+
+def sampled_spec(K, subs, xvals, w, crng, handle, wantF, wantG):
+    """Σ_s w_s·term_s and its partial derivatives, from the definition (exact rationals).  `K` has unit weights."""
+    f, g = STANDINS[handle]
+    cset = set(crng or [])
+    R = len(K["weights"])
+    ms = [kget(K, i) for i in subs]
+
+    def term(h, s):
+        x, m = Fraction(xvals[s]), ms[s]
+        return h(x, m) - h(Fraction(0), m) if s in cset else h(x, m)
+    F = sum((Fraction(w[s]) * term(f, s) for s in range(len(subs))), Fraction(0)) if wantF else None
+    G = None
+    if wantG:
+        G = []
+        for k, fm in enumerate(K["factors"]):
+            Gk = [[Fraction(0)] * R for _ in fm]
+            for s, i in enumerate(subs):
+                y = Fraction(w[s]) * term(g, s)
+                for r in range(R):
+                    Gk[i[k]][r] += y * comp_except(K, k, r, i)
+            G.append(Gk)
+    return {"F": None if F is None else jnum(F), "G": None if G is None else jval(G)}
+
+
+CRNG_KINDS = ["none", "empty", "partial", "full", "repeats"]
+
+
+class EstimateWeighted(Family):
+    """fg_est.estimate with ARBITRARY sample weights, repeated samples and the correction range of the
+    semi-stratified sampler: implementation == proved model == the specification executed in Lean
+    (Spec/GcpSampled.lean) == the defining sums evaluated here; every gradient entry of every mode, and the
+    exact stencil of the implementation's own objective for one entry per mode."""
+    name = "estimate_weighted"
+    theorems = ("C12_estimate_weighted", "C12_estimate_crng", "C12_estimate_weighted_is_partial_derivative",
+                "C12_estimate_ignores_model_weights")
+
+    def gen(self, rng, tier):
+        out = []
+        n = 70 if tier == "quick" else 700
+        for j in range(n):
+            shape, K = gen_model(rng, tier)
+            nmax = 8 if tier == "quick" else 12
+            ns = rng.choice([1, 2, 3, rng.randint(2, nmax), rng.randint(2, nmax)])
+            subs = [[rng.randrange(s) for s in shape] for _ in range(ns)]
+            if ns >= 2 and j % 3 != 0:          # repeated subscripts, adjacent and far apart
+                subs[-1] = list(subs[0])
+                if ns >= 4 and rng.random() < 0.5:
+                    subs[2] = list(subs[1])
+            wk = ["ones", "ints", "halves", "mask", "zeros", "neg"][j % 6]
+            if wk == "zeros":
+                w = [0] * ns
+            elif wk == "neg":
+                w = [-rng.randint(1, 4) for _ in range(ns)]
+            else:
+                w = frac_w(rng, ns, wk)
+            ck = CRNG_KINDS[(j // 2) % len(CRNG_KINDS)]
+            if ck == "none":
+                crng = None
+            elif ck == "empty":
+                crng = []
+            elif ck == "full":
+                crng = list(range(ns))
+            elif ck == "partial":
+                crng = sorted(rng.sample(range(ns), rng.randint(1, max(1, ns - 1)))) if ns > 1 else [0]
+                if len(crng) == ns and ns > 1:
+                    crng = crng[:-1]
+            else:
+                base = [rng.randrange(ns) for _ in range(rng.randint(1, 3))]
+                crng = base + [base[0]]
+            wantF, wantG = [(True, True), (True, True), (True, False), (False, True)][j % 4]
+            unit = all(x == 1 for x in K["weights"])
+            out.append({"K": K, "subs": subs, "ncols": len(shape), "xvals": gen.int_values(rng, ns, -4, 4), "w": w,
+                        "wk": wk, "crng": crng, "ck": ck, "handle": list(STANDINS)[j % 3], "wantF": wantF, "wantG": wantG,
+                        "lambda_check": bool(unit and rng.random() < 0.5),
+                        "probes": [[k, rng.randrange(shape[k]), rng.randrange(len(K["weights"]))] for k in range(len(shape))],
+                        "lv": rng.choice(VEC_LAYOUTS)})
+        return out
+
+    @staticmethod
+    def _impl(c, K=None, wantF=None, wantG=None):
+        K = K or c["K"]
+        wantF = c["wantF"] if wantF is None else wantF
+        wantG = c["wantG"] if wantG is None else wantG
+        f, g = pick(c["handle"], wantF, wantG)
+        subs = np.array(c["subs"], dtype=int).reshape(len(c["subs"]), c["ncols"])
+        crng = None if c["crng"] is None else lay(np.array(c["crng"], dtype=int), c["lv"])
+        xv = lay(np.array(to_float_list(c["xvals"])), c["lv"])
+        w = lay(np.array(to_float_list(c["w"])), c["lv"])
+        w0, xv0 = w.copy(), xv.copy()
+        with warnings.catch_warnings():
+            warnings.simplefilter("ignore")
+            res = fg_est.estimate(mk_k(K), subs, xv, w, f, g, c["lambda_check"], crng)
+        if not (np.array_equal(w, w0) and np.array_equal(xv, xv0)):
+            raise AssertionError("estimate changed its weight / value vectors")
+        return fg_canon(res, wantF, wantG)
+
+    def evaluate(self, cases):
+        impls = [call(self._impl, c) for c in cases]
+        reqs = []
+        for c in cases:
+            base = {"subs": c["subs"], "xvals": c["xvals"], "w": c["w"], "handle": c["handle"], "wantF": c["wantF"],
+                    "wantG": c["wantG"], "crng": c["crng"]}
+            reqs.append({"op": "gcp_estimate", "K": c["K"], **base})
+            reqs.append({"op": "gcp_sampled_spec", "K": unit_model(c["K"]), **base})
+        models = drive(reqs)
+        out = []
+        for i, (c, impl) in enumerate(zip(cases, impls)):
+            mo, lean_spec = models[2 * i], models[2 * i + 1]
+            N = c["ncols"]
+            unit = all(x == 1 for x in c["K"]["weights"])
+            tags = [f"N{N}", f"n{min(len(c['subs']), 9)}", "w:" + c["wk"], "crng:" + c["ck"],
+                    "unitλ" if unit else "λ≠1(ignored)", ("F" if c["wantF"] else "") + ("G" if c["wantG"] else ""),
+                    "repeats" if len({tuple(t) for t in c["subs"]}) < len(c["subs"]) else "distinct"]
+            if "ok" not in impl:
+                out.append(Verdict("violation", f"fg_est.estimate raised {impl.get('exc')}: {impl.get('msg')} on in-range "
+                                                f"samples", impl, mo, lean_spec, tags))
+                continue
+            spec = sampled_spec(unit_model(c["K"]), c["subs"], c["xvals"], c["w"], c["crng"], c["handle"],
+                                c["wantF"], c["wantG"])
+            if not deep_eq(spec, lean_spec):
+                out.append(Verdict("corr", "the specification executed in Lean differs from the defining sums", spec,
+                                   lean_spec, spec, tags))
+                continue
+            if not deep_eq(impl["ok"], spec):
+                what = "Σ_s w_s·(f(x_s, m_s) − [s ∈ crng]·f(0, m_s))" if not deep_eq(impl["ok"]["F"], spec["F"]) else \
+                    "Σ_s w_s·(g(x_s, m_s) − [s ∈ crng]·g(0, m_s))·∂m_s/∂A"
+                out.append(Verdict("violation", f"fg_est.estimate does not return {what} (weights {c['wk']}, correction "
+                                                f"range {c['ck']})", impl, mo, spec, tags))
+                continue
+            if not deep_eq(impl, mo):
+                out.append(Verdict("violation", "fg_est.estimate differs from the (proved) model", impl, mo, spec, tags))
+                continue
+            v = Verdict("ok", "", impl, mo, spec, tags, True)
+            # the gradient entries are the exact partial derivatives of the implementation's own sampled objective
+            # (a polynomial of degree <= 3 in one factor entry: the 5-point stencil with step 1 is exact)
+            if c["wantG"]:
+                for (k, a, r) in c["probes"]:
+                    vals = []
+                    for dt in (2, 1, -1, -2):
+                        K2 = {"weights": c["K"]["weights"], "factors": [[list(row) for row in fm] for fm in c["K"]["factors"]]}
+                        K2["factors"][k][a][r] += dt
+                        o = call(self._impl, c, K2, True, False)
+                        vals.append(Fraction(o["ok"]["F"]) if "ok" in o else None)
+                    if None in vals:
+                        continue
+                    d = (-vals[0] + 8 * vals[1] - 8 * vals[2] + vals[3]) / 12
+                    got = impl["ok"]["G"][k][a][r]
+                    if not deep_eq(got, jnum(d)):
+                        v = Verdict("violation", f"sampled gradient entry G[{k}][{a},{r}] = {got} is not the partial "
+                                                 f"derivative {d} of the sampled objective", impl, mo, jnum(d), tags + ["probe"])
+                        break
+            out.append(v)
+        return out
+
+    def shrink(self, case):
+        c = case
+        ns = len(c["subs"])
+        for i in range(ns):
+            if ns <= 1:
+                break
+            c2 = {**c, "subs": c["subs"][:i] + c["subs"][i + 1:], "xvals": c["xvals"][:i] + c["xvals"][i + 1:],
+                  "w": c["w"][:i] + c["w"][i + 1:]}
+            if c["crng"] is not None:
+                c2["crng"] = [j - (1 if j > i else 0) for j in c["crng"] if j != i]
+            yield c2
+        if c["crng"]:
+            yield {**c, "crng": None, "ck": "none"}
+        R = len(c["K"]["weights"])
+        if R > 1:
+            K2 = {"weights": c["K"]["weights"][:-1], "factors": [[row[:-1] for row in f] for f in c["K"]["factors"]]}
+            yield {**c, "K": K2, "probes": [[k, a, min(r, R - 2)] for (k, a, r) in c["probes"]]}
+
+
+MASK_KINDS = ["all", "none", "some", "some", "single"]
+BUILTIN_FOR_MASK = ["GAUSSIAN", "POISSON", "GAMMA", "RAYLEIGH", "BERNOULLI_LOGIT"]
+
+
+class EvaluateMask(Family):
+    """fg.evaluate with a 0/1 mask (ndarray of floats / ints / booleans, any layout): objective and gradients are
+    those of the loss summed over the unmasked entries only — implementation == proved model == the masked sum
+    executed in Lean == the defining sums; every entry of every mode's gradient against the analytic partial
+    derivative of the masked objective.  Also with the real built-in handles (doubles, tolerance)."""
+    name = "evaluate_mask"
+    theorems = ("C12_evaluate_mask", "C12_evaluate_mask_objective")
+
+    def gen(self, rng, tier):
+        out = []
+        n = 60 if tier == "quick" else 600
+        for j in range(n):
+            shape, K = gen_model(rng, tier)
+            cells = gen.numel(shape)
+            mk = MASK_KINDS[j % len(MASK_KINDS)]
+            if mk == "all":
+                m = [1] * cells
+            elif mk == "none":
+                m = [0] * cells
+            elif mk == "single":
+                m = [0] * cells
+                m[rng.randrange(cells)] = 1
+            else:
+                m = mask_values(rng, cells)
+            builtin = BUILTIN_FOR_MASK[(j // 7) % len(BUILTIN_FOR_MASK)] if j % 7 == 3 else None
+            c = {"K": K, "X": {"shape": shape, "data": gen.dense_data(rng, shape, 0.25)}, "W": {"shape": shape, "data": m},
+                 "mk": mk, "handle": list(STANDINS)[j % 3], "lw": rng.choice(LAYOUTS),
+                 "dtype": ["float", "bool", "int"][(j // 3) % 3], "sparseX": rng.random() < 0.2,
+                 "wantF": j % 4 != 3, "wantG": j % 4 != 2, "builtin": builtin}
+            if builtin:
+                # model values inside every loss's domain: positive factor entries and weights; data suited to the loss
+                R = len(K["weights"])
+                c["K"] = {"weights": [rng.choice([1, 2, jnum(Fraction(1, 2))]) for _ in range(R)],
+                          "factors": [[[rng.choice([1, 2, jnum(Fraction(1, 2)), jnum(Fraction(3, 2))]) for _ in range(R)]
+                                       for _ in range(s)] for s in shape]}
+                c["X"] = {"shape": shape, "data": [rng.choice([0, 1]) if builtin == "BERNOULLI_LOGIT" else rng.randint(0, 4)
+                                                   for _ in range(cells)]}
+                c["wantF"] = c["wantG"] = True
+                c["sparseX"] = False
+            out.append(c)
+        return out
+
+    @staticmethod
+    def _mask_array(c):
+        W = nd_from_F(c["W"]["shape"], c["W"]["data"], c["lw"])
+        if c["dtype"] == "bool":
+            W = lay(W.astype(bool), c["lw"])
+        elif c["dtype"] == "int":
+            W = lay(W.astype(np.int64), c["lw"])
+        return W
+
+    def _impl(self, c):
+        if c["builtin"]:
+            with warnings.catch_warnings():
+                warnings.simplefilter("ignore")
+                f, g, _lb = fg_setup.setup(Objectives[c["builtin"]], None, None)
+        else:
+            f, g = pick(c["handle"], c["wantF"], c["wantG"])
+        X = gen.mk_tensor(ttb, c["X"]["shape"], c["X"]["data"])
+        if c.get("sparseX"):
+            X = X.to_sptensor() if hasattr(X, "to_sptensor") else ttb.sptensor.from_tensor_type(X)
+        W = self._mask_array(c)
+        W0 = W.copy()
+        with warnings.catch_warnings():
+            warnings.simplefilter("ignore")
+            res = fg.evaluate(mk_k(c["K"]), X, W, f, g)
+        if not np.array_equal(W, W0):
+            raise AssertionError("evaluate changed the mask")
+        if c["builtin"]:
+            F, G = res
+            return {"F": float(F), "G": [np.asarray(gk, dtype=float).tolist() for gk in G]}
+        return fg_canon(res, c["wantF"], c["wantG"])
+
+    @staticmethod
+    def _masked_spec(c, f, g, num):
+        """(Σ over unmasked i of f(x_i, m_i), analytic partial derivatives of that sum); `num` converts exact values"""
+        K, shape = c["K"], c["X"]["shape"]
+        R = len(K["weights"])
+        F = num(0)
+        G = [[[num(0)] * R for _ in fm] for fm in K["factors"]]
+        kept = []
+        for idx, i in enumerate(gen.all_subs(shape)):
+            if c["W"]["data"][idx] == 0:
+                continue
+            kept.append(list(i))
+            x, m = num(Fraction(c["X"]["data"][idx])), num(kget(K, i))
+            F += f(x, m)
+            y = g(x, m)
+            for k in range(len(shape)):
+                for r in range(R):
+                    G[k][i[k]][r] += y * num(Fraction(K["weights"][r]) * comp_except(K, k, r, i))
+        return F, G, kept
+
+    def evaluate(self, cases):
+        impls = [call(self._impl, c) for c in cases]
+        reqs = []
+        for c in cases:
+            reqs.append({"op": "gcp_evaluate", "K": c["K"], "X": c["X"], "W": c["W"], "handle": c["handle"],
+                         "wantF": c["wantF"], "wantG": c["wantG"]})
+            reqs.append({"op": "gcp_masked_spec", "K": c["K"], "X": c["X"], "W": c["W"], "handle": c["handle"]})
+        models = drive(reqs)
+        out = []
+        for i, (c, impl) in enumerate(zip(cases, impls)):
+            mo, lean_spec = models[2 * i], models[2 * i + 1]
+            lam = [Fraction(x) for x in c["K"]["weights"]]
+            tags = [f"N{len(c['X']['shape'])}", "mask:" + c["mk"], "dtype:" + c["dtype"], f"w{c['lw']}",
+                    "unitλ" if all(x == 1 for x in lam) else "λ≠1", "sparseX" if c.get("sparseX") else "denseX",
+                    ("F" if c["wantF"] else "") + ("G" if c["wantG"] else "")]
+            nt = nontriv(c["K"], c["X"]["data"]) and c["mk"] != "none"
+            if "ok" not in impl:
+                out.append(Verdict("violation", f"fg.evaluate raised {impl.get('exc')}: {impl.get('msg')} for a "
+                                                f"{c['dtype']} 0/1 mask", impl, mo, None, tags))
+                continue
+            if c["builtin"]:
+                # doubles: compare with the masked sums of the real handles, relative tolerance
+                tags.append("builtin:" + c["builtin"])
+                fh = getattr(handles, loss_name(c["builtin"]))
+                gh = getattr(handles, grad_name(c["builtin"]))
+
+                def f1(x, m, fh=fh):
+                    return float(fh(np.array([x]), np.array([m]))[0])
+
+                def g1(x, m, gh=gh):
+                    return float(gh(np.array([x]), np.array([m]))[0])
+                F, G, _kept = self._masked_spec(c, f1, g1, float)
+                flat = [(impl["ok"]["F"], F)] + [(a, b) for gi, gs in zip(impl["ok"]["G"], G)
+                                                 for ri, rs in zip(gi, gs) for a, b in zip(ri, rs)]
+                scale = 1.0 + max(abs(b) for _a, b in flat)
+                bad = [(a, b) for a, b in flat if not (abs(a - b) <= 1e-9 * scale)]
+                if bad:
+                    out.append(Verdict("violation", f"{c['builtin']}: with a 0/1 mask the objective / gradients are not those "
+                                                    f"of the loss summed over the unmasked entries ({bad[0][0]!r} vs "
+                                                    f"{bad[0][1]!r})", jval(impl["ok"]), None, jval({"F": F, "G": G}), tags))
+                else:
+                    out.append(Verdict("ok", "", jval(impl["ok"]), None, jval({"F": F, "G": G}), tags, nt))
+                continue
+            f, g = STANDINS[c["handle"]]
+            F, G, kept = self._masked_spec(c, f, g, Fraction)
+            spec = {"F": jnum(F) if c["wantF"] else None, "G": jval(G) if c["wantG"] else None}
+            if not (lean_spec["isMask"] and deep_eq(lean_spec["F"], jnum(F)) and lean_spec["unmasked"] == kept):
+                out.append(Verdict("corr", "the masked objective executed in Lean differs from the defining sum",
+                                   jnum(F), lean_spec, spec, tags))
+                continue
+            if not deep_eq(impl["ok"], spec):
+                what = "the objective is not the loss summed over the unmasked entries only" \
+                    if not deep_eq(impl["ok"]["F"], spec["F"]) else \
+                    "a gradient entry is not the partial derivative of the loss summed over the unmasked entries"
+                out.append(Verdict("violation", f"0/1 mask ({c['mk']}, {c['dtype']}, layout {c['lw']}): {what}", impl, mo,
+                                   spec, tags, nt))
+                continue
+            if not deep_eq(impl, mo):
+                out.append(Verdict("violation", "fg.evaluate differs from the (proved) model", impl, mo, spec, tags, nt))
+                continue
+            out.append(Verdict("ok", "", impl, mo, spec, tags, nt))
+        return out
+
+    def shrink(self, case):
+        c = case
+        if c["builtin"]:
+            return
+        R = len(c["K"]["weights"])
+        if R > 1:
+            yield {**c, "K": {"weights": c["K"]["weights"][:-1],
+                              "factors": [[row[:-1] for row in f] for f in c["K"]["factors"]]}}
+        if c["lw"] != "F":
+            yield {**c, "lw": "F"}
+        if c["dtype"] != "float":
+            yield {**c, "dtype": "float"}
+        if c.get("sparseX"):
+            yield {**c, "sparseX": False}
+
+
 def families():
     return [HandleFidelity(), DerivativeGrid(), SymbolicDerivative(), TablePairing(), EvaluateCorr(), EvaluateLayouts(),
-            GcpOptMask(), EstimateLayouts(), AllModes(), EstimateCorr(), FullSample()]
+            GcpOptMask(), EstimateLayouts(), AllModes(), EstimateCorr(), FullSample(), EstimateWeighted(), EvaluateMask()]
